@@ -373,6 +373,8 @@ def report(ctx, exe, task, notes, rej, d, seed, st):
     for n in props:
         if n in props2:
             hit = True
+            if n in st["props"]: continue          # one report per key
+            st["props"].add(n)
             ctx.fail(key_of(n), "scenario kind %s\n%s" % (name, "\n".join(lines)), {"scenario": text, "note": n})
     if rej is not None and rej2 is not None and rej2[1].get("e") == rej[1].get("e"):
         hit = True
@@ -383,10 +385,14 @@ def report(ctx, exe, task, notes, rej, d, seed, st):
 
 def selftest(ctx, segs, d):
     """the trace spec must notice a tampered log: a changed count, a changed buffer byte, a dropped arming call"""
-    seg = None
+    seg = None; tried = 0
     for s in segs:
         cbs = [e for e in s if e["e"] == "taskcb.begin" and e["nb"] > 0 and e["err"] == 0]
-        if cbs and any(e["e"] == "ev.post" for e in s) and s[0]["e"] == "tknew" and s[0]["kind"] == 0: seg = s; break
+        if cbs and any(e["e"] == "ev.post" for e in s) and s[0]["e"] == "tknew" and s[0]["kind"] == 0:
+            tried += 1
+            notes, rej, _ = tlc_validate([s], d, "self_base")      # only a trace that is clean by itself is a meaningful base
+            if rej is None and not notes: seg = s; break
+            if tried >= 6: break
     if seg is None: return 0
     def tamper(kind):
         out = []; done = False
@@ -405,6 +411,47 @@ def selftest(ctx, segs, d):
             raise common.Infra("selftest: a tampered trace (%s) was accepted without a finding" % kind)
         n += 1
     return n
+
+def crashed(rc, out, evs):
+    """a fault inside the library (pool thread touching a destroyed task ...) is an observation, not a rig failure"""
+    c = [e for e in evs if e["e"] == "Crash"]
+    if c: return "sig%s" % c[0].get("sig")
+    if rc != 0 and common.san_key(out):
+        k = common.san_key(out); return "%s:%s" % (k[0], k[1])
+    return None
+
+def process_batch(ctx, exe, bld, tasks, res, d, tag, seed, st, depth):
+    rc, out, evs = res
+    bad = [e for e in evs if e["e"] in ("Hang", "BadOp")]
+    cr = crashed(rc, out, evs)
+    if bad or (rc != 0 and not cr): raise common.Infra("task_drv batch %s (%s) rc=%s %s\n%s" % (tag, bld, rc, bad[:2], out[-1500:]))
+    if not cr:
+        validate_batch(ctx, exe, tasks, evs, d, tag, seed, st); return
+    nreset = sum(1 for e in evs if e["e"] == "Reset")
+    last = max([i for i, e in enumerate(evs) if e["e"] == "Reset"], default=-1)
+    if nreset: validate_batch(ctx, exe, tasks[:nreset], evs[:last + 1], d, tag + "p", seed, st)
+    if nreset < len(tasks):
+        culprit = tasks[nreset]
+        tail = [e for e in evs[last + 1:] if e["e"] != "Crash"]
+        segs = segments(tail)
+        if segs:      # what the specification says about the life that ended in the fault
+            notes, rej, _ = tlc_validate(segs[:1], d, tag + "c")
+            report(ctx, exe, culprit, [n for _, n, _ in notes], rej, d, seed, st)
+        st["reruns"] += 1
+        rc2, out2, evs2 = run_driver(exe, single_text(culprit), d, seed, "crash%d" % st["reruns"])
+        cr2 = crashed(rc2, out2, evs2)
+        if cr2:
+            key = "task:fault-in-library:%s" % cr2
+            if key not in st["props"]:
+                st["props"].add(key)
+                ctx.fail(key, "the driver died inside the library while running this task life (twice)\nscenario kind %s\n%s\n%s" %
+                         (culprit[0], "\n".join(culprit[1]), out2[-1500:]), {"scenario": single_text(culprit)})
+        else:
+            ctx.log("fault not reproduced on re-run (not reported): %s" % cr)
+        rest = tasks[nreset + 1:]
+        if rest and depth < 4:
+            res2 = run_driver(exe, batch_text(rest, True), d, seed + 7 * (depth + 1), tag + "r%d" % depth, timeout=600)
+            process_batch(ctx, exe, bld, rest, res2, d, tag + "r%d" % depth, seed, st, depth + 1)
 
 def run(ctx):
     ctx.level = "model_checking"
@@ -429,7 +476,7 @@ def run(ctx):
     builds = [None] if ctx.quick else [None, "asan"]
     exes = {b: build(d, b) for b in builds}
     nb, per = (4, 26) if ctx.quick else (24, 90)
-    st = {"traces": 0, "events": 0, "tlc_states": 0, "tlc_wall": 0.0, "reruns": 0, "devs": {}}
+    st = {"traces": 0, "events": 0, "tlc_states": 0, "tlc_wall": 0.0, "reruns": 0, "devs": {}, "props": set()}
     jobs = []
     for b in range(nb):
         tasks = gen_batch(rng, per, deep=not ctx.quick)
@@ -440,15 +487,10 @@ def run(ctx):
     kinds = {}
     with ThreadPoolExecutor(max_workers=3) as ex:
         results = list(ex.map(runit, jobs))
-    for (b, tasks, bld, seed), (rc, out, evs) in results:
-        bad = [e for e in evs if e["e"] in ("Hang", "BadOp", "Crash")]
-        if rc != 0 and common.san_key(out):
-            k = common.san_key(out)
-            ctx.fail("task:sanitizer:%s:%s" % (k[0], k[1]), out[-3000:], {"scenario": batch_text(tasks, True), "seed": seed}); continue
-        if rc != 0 or bad: raise common.Infra("task_drv batch %d (%s) rc=%s %s\n%s" % (b, bld, rc, bad[:2], out[-1500:]))
+    for (b, tasks, bld, seed), res in results:
         for name, _ in tasks: kinds[name] = kinds.get(name, 0) + 1
-        validate_batch(ctx, exes[bld], tasks, evs, d, "b%d" % b, seed, st)
-        if b == 0: ctx.add(selftests_tampered_traces_rejected=selftest(ctx, segments(evs), d))
+        process_batch(ctx, exes[bld], bld, tasks, res, d, "b%d" % b, seed, st, 0)
+        if b == 0 and res[0] == 0: ctx.add(selftests_tampered_traces_rejected=selftest(ctx, segments(res[2]), d))
     ctx.add(traces_validated_against_impl=st["traces"], events_validated=st["events"], evaluations=st["traces"],
             distinct_nontrivial=st["traces"], scenario_kinds=kinds, builds=[b or "gcc-O1" for b in builds],
             trace_tlc_states=st["tlc_states"], reruns=st["reruns"], deviations_seen=st["devs"],
